@@ -12,7 +12,7 @@ COQ_PREAMBLE = ("Inductive lcase := CMgm (c : M_Mgm.case) | CDsa (c : M_Dsa.dcas
 OBLIGATIONS = ["mgm_no_reentrancy_partial", "mgm_isolated_finishes", "dsa_isolated_finishes",
                "mgm2_isolated_finishes", "mgm_finished_at_stop_partial", "dsa_finished_at_stop_partial",
                "dsa_stopped_silent_partial"]
-N_QUICK, N_THOROUGH = 300, 4000
+N_QUICK, N_THOROUGH = 300, 6000
 PARALLEL = 8
 SHARD = 60
 RULE = ("random DCOPs of 1-6 variables (domains of 1-3 integer values, also non-contiguous / unsorted), binary "
